@@ -166,6 +166,32 @@ def run_case(rng, tier, case):
                 try:
                     tg.set_restricted_grid(cs_in, ce_in, cf)
                     case.feature('coarse:' + g['freq'] + '->' + cf)
+                    # interval data on an asset with that own frequency: each coarse step gets the value of the interval that contains ITS grid point
+                    # (a boundary strictly inside a coarse step does not blend the two values)
+                    try:
+                        rg = tg.restricted
+                        lists = [list(map(int, x)) for x in rg.I_minor_in_major]
+                        inner = [x[len(x) // 2] for x in lists if len(x) >= 2]
+                        if inner and rng.random() < 0.6:
+                            import eaopack.assets as EA
+                            from eaopack.basic_classes import Node
+                            jmid = int(inner[int(rng.integers(len(inner)))])
+                            mid_ = pd.Timestamp(tg.timepoints[jmid])
+                            far0_ = pd.Timestamp(tg.timepoints[0]) - pd.Timedelta(days=400); far1_ = pd.Timestamp(tg.timepoints[-1]) + pd.Timedelta(days=400)
+                            v1_, v2_ = 2., 10.
+                            pa = EA.SimpleContract(name='probe', nodes=Node('n'), min_cap=0., max_cap={'start': [far0_, mid_], 'end': [mid_, far1_], 'values': [v1_, v2_]}, freq=cf,
+                                                   start=cs_in, end=ce_in)
+                            tg_p = Timegrid(s_in, e_in, freq=g['freq'], main_time_unit=g['unit'], timezone=g['tz'])
+                            op_p = pa.setup_optim_problem({}, tg_p)
+                            rgp = tg_p.restricted
+                            want_u = np.array([(v1_ if pd.Timestamp(p_) < mid_ else v2_) for p_ in rgp.timepoints]) * np.asarray(rgp.dt, float)
+                            got_u = np.asarray(op_p.u, float)
+                            oku = len(got_u) == len(want_u) and bool(np.allclose(got_u, want_u, rtol=1e-9, atol=1e-12))
+                            case.check('values.coarse_asset_takes_value_at_its_grid_point', oku, window=desc.get('coarse'), grid=g, boundary=str(mid_), got=got_u[:6].tolist(), want=want_u[:6].tolist())
+                    except AssertionError:
+                        pass
+                    except Exception as exq:
+                        case.check('values.coarse_asset_takes_value_at_its_grid_point', False, window=desc.get('coarse'), grid=g, error='%s: %s' % (type(exq).__name__, str(exq)[:160]))
                 except ValueError as ex:
                     # a coarse interval without any fine point (window narrower than one coarse step): no grid produced
                     case.feature('coarse_empty_interval')
